@@ -363,20 +363,44 @@ func genTryDecoding(o *out, fd *ast.FuncDecl, resolve func(ast.Expr) string, con
 //
 // and returns which error classes let the loop go on to the next upstream.
 func failoverLoop(fd *ast.FuncDecl, method string) (onUnavailable, onUnsupported bool) {
-	var loop *ast.RangeStmt
+	// the loop over the upstreams in configured order: `for … := range fg.servers` or the equivalent index loop
+	// `for i := 0; i < len(fg.servers); i++ { prom := fg.servers[i]; … }`
+	var body *ast.BlockStmt
 	for _, st := range fd.Body.List {
-		if rs, ok := st.(*ast.RangeStmt); ok {
-			if loop != nil {
+		switch l := st.(type) {
+		case *ast.RangeStmt:
+			if body != nil {
 				fatal("FailoverGroup.%s: more than one loop", method)
 			}
-			loop = rs
+			if src(l.X) != "fg.servers" {
+				fatal("FailoverGroup.%s: no `range fg.servers` loop", method)
+			}
+			body = l.Body
+		case *ast.ForStmt:
+			if body != nil {
+				fatal("FailoverGroup.%s: more than one loop", method)
+			}
+			ok := false
+			if as, isAs := l.Init.(*ast.AssignStmt); isAs && len(as.Lhs) == 1 && len(as.Rhs) == 1 && src(as.Rhs[0]) == "0" && l.Cond != nil && l.Post != nil {
+				i := src(as.Lhs[0])
+				if oneLine(src(l.Cond)) == i+" < len(fg.servers)" && oneLine(src(l.Post)) == i+"++" && len(l.Body.List) > 0 {
+					if first, isAs := l.Body.List[0].(*ast.AssignStmt); isAs && len(first.Lhs) == 1 && len(first.Rhs) == 1 &&
+						src(first.Lhs[0]) == "prom" && oneLine(src(first.Rhs[0])) == "fg.servers["+i+"]" {
+						ok = true
+					}
+				}
+			}
+			if !ok {
+				fatal("FailoverGroup.%s: loop at %s is not an in-order loop over fg.servers", method, pos(l))
+			}
+			body = l.Body
 		}
 	}
-	if loop == nil || src(loop.X) != "fg.servers" {
+	if body == nil {
 		fatal("FailoverGroup.%s: no `range fg.servers` loop", method)
 	}
 	called, okReturn, stop := false, false, false
-	for _, st := range loop.Body.List {
+	for _, st := range body.List {
 		switch s := st.(type) {
 		case *ast.AssignStmt:
 			if len(s.Rhs) == 1 {
